@@ -1,5 +1,310 @@
-(** C09 — stub, replaced below *)
-From Coq Require Import ZArith Reals Bool.
-From KV Require Import Scalar RInst Geom Curves Nearest.
+(** C09 — nearest-point queries return the true minimum distance.  Statements only.
+
+    Real instance [RS] of the models in model/Nearest.v (line.rs 161-175, quadbez.rs 299-346,
+    cubicbez.rs 672-689 with to_quads 78-97 / ToQuads::next 735-757, bezpath.rs 902-910).
+    Results are pairs [(t, distance_sq)]; [None] stands for a panicking [unwrap].
+
+    What is NOT covered by any theorem here: rounding.  The defects of the pinned tree recorded
+    for this property (known findings C09-straight-cubic, C09-solver-cancellation) are binary64
+    phenomena of [solve_cubic]; they are visible only to the correspondence/laws, and in
+    [C09_straight_cubic_float_witness] below. *)
+From Coq Require Import ZArith QArith Reals List Bool Floats.
+From KV Require Import Scalar RInst F64 Geom Curves Solvers Nearest NearestSpec C09_proofs C09_closed.
+Import ListNotations.
 Local Open Scope R_scope.
-Example C09_stub : 1 = 1. Proof. reflexivity. Qed.
+
+(** * Lines (full): clamped projection, including the zero-length line *)
+
+Theorem C09_line_nearest_min : forall (l : Line R) (p : Point R),
+  let '(t, d) := line_nearest l p in
+  0 <= t <= 1 /\
+  pt_distance_squared p (line_eval l t) = d /\
+  forall u, 0 <= u <= 1 -> d <= pt_distance_squared p (line_eval l u).
+Proof. exact line_nearest_min. Qed.
+
+(** * Quadratics *)
+
+(** the result is always [Some]: [r_best.unwrap()] cannot panic, whatever the solver returns;
+    the parameter is in [0,1] and the squared distance is that of the curve point there *)
+Theorem C09_quad_nearest_total : forall (q : QuadBez R) (p : Point R) (roots : list R),
+  exists t d, quad_nearest_from_roots q p roots = Some (t, d) /\ 0 <= t <= 1 /\
+              d = pt_distance_squared (quad_eval q t) p.
+Proof. exact quad_nearest_total. Qed.
+
+(** the [need_ends] case analysis: for a quadratic that is not degree-degenerate (k3 = |p0-2p1+p2|^2 > 0)
+    and ANY list containing every real root of k0 + k1 x + k2 x^2 + k3 x^3 (extra entries allowed),
+    the code after the solver call returns the minimum over [0,1] and a parameter attaining it *)
+Theorem C09_quad_nearest_from_roots_min : forall (q : QuadBez R) (p : Point R) (roots : list R),
+  let '(k0, k1, k2, k3) := quad_nearest_coeffs q p in
+  0 < k3 ->
+  (forall x, k0 + k1 * x + k2 * (x * x) + k3 * (x * x * x) = 0 -> In x roots) ->
+  exists t d, quad_nearest_from_roots q p roots = Some (t, d) /\
+    0 <= t <= 1 /\ pt_distance_squared (quad_eval q t) p = d /\
+    forall u, 0 <= u <= 1 -> d <= pt_distance_squared (quad_eval q u) p.
+Proof.
+  intros q p roots. pose proof (quad_nearest_from_roots_min q p roots) as H.
+  destruct (quad_nearest_coeffs q p) as [[[k0 k1] k2] k3]. exact H.
+Qed.
+
+(** FULL, given a root-complete solver: for every quadratic (loops of the control polygon,
+    collinear, degree-degenerate, a single point) and every point, [nearest] over a solver that
+    lists every real root of every not identically vanishing polynomial of degree <= 3 returns the
+    minimum of |p - q(u)|^2 over [0,1] and a parameter in [0,1] attaining it *)
+Theorem C09_quad_nearest_min : forall solver : R -> R -> R -> R -> list R,
+  (forall k0 k1 k2 k3 x : R, (k0, k1, k2, k3) <> (0, 0, 0, 0) ->
+     k0 + k1 * x + k2 * (x * x) + k3 * (x * x * x) = 0 -> In x (solver k0 k1 k2 k3)) ->
+  forall (q : QuadBez R) (p : Point R),
+  exists t d, quad_nearest_with solver q p = Some (t, d) /\
+    0 <= t <= 1 /\ pt_distance_squared (quad_eval q t) p = d /\
+    forall u, 0 <= u <= 1 -> d <= pt_distance_squared (quad_eval q u) p.
+Proof. exact quad_nearest_with_min. Qed.
+
+(** such a solver exists: [solve_cubic] with the delegations the float code takes when a leading
+    coefficient vanishes (C15: solve_cubic_exact, solve_quadratic_spec_main, quad_linear_real) *)
+Theorem C09_solve_cubic_ext_complete :
+  forall k0 k1 k2 k3 x : R, (k0, k1, k2, k3) <> (0, 0, 0, 0) ->
+    k0 + k1 * x + k2 * (x * x) + k3 * (x * x * x) = 0 -> In x (solve_cubic_ext k0 k1 k2 k3).
+Proof. exact solve_cubic_ext_complete. Qed.
+Theorem C09_solve_cubic_ext_is_solve_cubic : forall k0 k1 k2 k3 : R, k3 <> 0 ->
+  solve_cubic_ext k0 k1 k2 k3 = solve_cubic k0 k1 k2 k3.
+Proof. exact solve_cubic_ext_cubic. Qed.
+
+(** the code's own call, [solve_cubic] of Solvers.v, with its completeness as a hypothesis.
+    _partial: the degree-degenerate quadratics (p0 - 2 p1 + p2 = 0) are excluded because the real
+    run of [solve_cubic] does not take the [1/0 = inf] delegation the compiled code takes; they are
+    covered by [C09_quad_nearest_degenerate] + [C09_solve_cubic_delegates_linear] (and by
+    [C09_quad_nearest_min] over [solve_cubic_ext]) *)
+Section GivenSolver.
+Hypothesis cubic_solver_complete : forall c0 c1 c2 c3 x : R, c3 <> 0 ->
+  c0 + c1 * x + c2 * (x * x) + c3 * (x * x * x) = 0 -> In x (solve_cubic c0 c1 c2 c3).
+
+Theorem C09_quad_nearest_min_solve_cubic_partial : forall (q : QuadBez R) (p : Point R),
+  quad_d1 q <> mkVec2 0 0 ->
+  exists t d, quad_nearest q p = Some (t, d) /\
+    0 <= t <= 1 /\ pt_distance_squared (quad_eval q t) p = d /\
+    forall u, 0 <= u <= 1 -> d <= pt_distance_squared (quad_eval q u) p.
+Proof. exact (quad_nearest_min cubic_solver_complete). Qed.
+End GivenSolver.
+
+(** the same with the hypothesis discharged by C15's [solve_cubic_exact] *)
+Theorem C09_quad_nearest_min_closed_partial : forall (q : QuadBez R) (p : Point R),
+  quad_d1 q <> mkVec2 0 0 ->
+  exists t d, quad_nearest q p = Some (t, d) /\
+    0 <= t <= 1 /\ pt_distance_squared (quad_eval q t) p = d /\
+    forall u, 0 <= u <= 1 -> d <= pt_distance_squared (quad_eval q u) p.
+Proof. exact quad_nearest_min_closed. Qed.
+
+(** the degree-degenerate quadratic (a uniformly parametrised line, or a point): the code path
+    through the solvers' lower-degree fallbacks ends in [quad_linear k0 k1]; with those roots the
+    result is the minimum *)
+Theorem C09_quad_nearest_degenerate : forall (q : QuadBez R) (p : Point R),
+  quad_d1 q = mkVec2 0 0 ->
+  let '(k0, k1, k2, k3) := quad_nearest_coeffs q p in
+  k2 = 0 /\ k3 = 0 /\
+  exists t d, quad_nearest_from_roots q p (quad_linear k0 k1) = Some (t, d) /\
+    0 <= t <= 1 /\ pt_distance_squared (quad_eval q t) p = d /\
+    forall u, 0 <= u <= 1 -> d <= pt_distance_squared (quad_eval q u) p.
+Proof.
+  intros q p H. pose proof (quad_nearest_linear_min q p H) as H1. pose proof (quad_dist2_linear q p H) as H2.
+  destruct (quad_nearest_coeffs q p) as [[[k0 k1] k2] k3].
+  destruct H2 as (_ & _ & _ & E2 & E3). split; [exact E2|]. split; [exact E3 | exact H1].
+Qed.
+
+(** ... and that path, for every scalar: when the scaled coefficients are not all finite and the
+    quadratic's scaled coefficients are not both finite, [solve_cubic] IS [quad_linear] *)
+Theorem C09_solve_cubic_delegates_linear : forall (T : Type) (S : Scalar T) (c0 c1 c2 c3 : T),
+  (fis_finite (c0 * (f1 / c3)) && fis_finite (c1 * (sv_third * (f1 / c3)))
+     && fis_finite (c2 * (sv_third * (f1 / c3))))%S = false ->
+  (negb (fis_finite (c0 * (f1 / c2))) || negb (fis_finite (c1 * (f1 / c2))))%S = true ->
+  solve_cubic c0 c1 c2 c3 = quad_linear c0 c1.
+Proof. exact solve_cubic_delegates_linear. Qed.
+
+(** * Cubics *)
+
+(** unconditional: for ANY solver (complete or not) and any piece count n >= 1 the result is [Some]
+    ([best_r.unwrap()] cannot panic) and the returned parameter is in [0,1] *)
+Theorem C09_cubic_nearest_total : forall (solver : R -> R -> R -> R -> list R)
+  (c : CubicBez R) (p : Point R) (n : nat), (1 <= n)%nat ->
+  exists t d, cubic_nearest_n_with (quad_nearest_with solver) c p n = Some (t, d) /\ 0 <= t <= 1.
+Proof. exact cubic_nearest_total_any_solver. Qed.
+
+(** FULL, given a root-complete solver and the C17 pointwise bound (a hypothesis here; C17's
+    [to_quads_within_accuracy_n] proves it): for every cubic (loops, cusps, straight, degenerate),
+    every point and every piece count n >= 1 such that each quadratic is within [a] of its cubic
+    piece at corresponding parameters: the returned parameter is in [0,1]; sqrt(distance_sq) is at
+    most [a] above the distance from p to ANY curve point; the curve point at the returned parameter
+    is at most [a] farther from p than sqrt(distance_sq).  [C09_cubic_nearest_vs_minimum] restates
+    this against the minimum distance: the two claims of the property. *)
+Theorem C09_cubic_nearest_within_accuracy : forall solver : R -> R -> R -> R -> list R,
+  (forall k0 k1 k2 k3 x : R, (k0, k1, k2, k3) <> (0, 0, 0, 0) ->
+     k0 + k1 * x + k2 * (x * x) + k3 * (x * x * x) = 0 -> In x (solver k0 k1 k2 k3)) ->
+  forall (c : CubicBez R) (p : Point R) (n : nat) (a : R),
+  (1 <= n)%nat ->
+  (* to_quads_pointwise_bound *)
+  (forall (i : nat) (u : R), (i < n)%nat -> 0 <= u <= 1 ->
+     let '(t0, t1, q) := nr_quads_piece c (Z.of_nat n) (Z.of_nat i) in
+     pt_distance (cubic_eval c (t0 + u * (t1 - t0))) (quad_eval q u) <= a) ->
+  exists t d, cubic_nearest_n_with (quad_nearest_with solver) c p n = Some (t, d) /\
+    0 <= t <= 1 /\ 0 <= d /\
+    (forall u, 0 <= u <= 1 -> R_sqrt.sqrt d <= pt_distance (cubic_eval c u) p + a) /\
+    pt_distance (cubic_eval c t) p <= R_sqrt.sqrt d + a.
+Proof. exact cubic_nearest_with_complete_solver_bounds. Qed.
+
+Theorem C09_cubic_nearest_vs_minimum : forall solver : R -> R -> R -> R -> list R,
+  (forall k0 k1 k2 k3 x : R, (k0, k1, k2, k3) <> (0, 0, 0, 0) ->
+     k0 + k1 * x + k2 * (x * x) + k3 * (x * x * x) = 0 -> In x (solver k0 k1 k2 k3)) ->
+  forall (c : CubicBez R) (p : Point R) (n : nat) (a : R),
+  (1 <= n)%nat ->
+  (forall (i : nat) (u : R), (i < n)%nat -> 0 <= u <= 1 ->
+     let '(t0, t1, q) := nr_quads_piece c (Z.of_nat n) (Z.of_nat i) in
+     pt_distance (cubic_eval c (t0 + u * (t1 - t0))) (quad_eval q u) <= a) ->
+  exists t d, cubic_nearest_n_with (quad_nearest_with solver) c p n = Some (t, d) /\ 0 <= t <= 1 /\
+    forall tm dmin : R,
+      (0 <= tm <= 1 /\ pt_distance (cubic_eval c tm) p = dmin /\
+       forall u, 0 <= u <= 1 -> dmin <= pt_distance (cubic_eval c u) p) ->
+      Rabs (R_sqrt.sqrt d - dmin) <= a /\ pt_distance (cubic_eval c t) p <= dmin + 2 * a.
+Proof. exact cubic_nearest_with_complete_solver. Qed.
+
+(** the minimum distance is attained, so the previous statement is about something *)
+Theorem C09_cubic_min_distance_attained : forall (c : CubicBez R) (p : Point R),
+  exists tm, 0 <= tm <= 1 /\ forall u, 0 <= u <= 1 ->
+    pt_distance (cubic_eval c tm) p <= pt_distance (cubic_eval c u) p.
+Proof.
+  intros c p. destruct (cubic_dist_min_exists c p) as [tm (H1 & _ & H3)]. exists tm. split; assumption.
+Qed.
+
+(** the code's own call chain ([cubic_nearest] = the loop over the count the code computes, pieces
+    answered by [quad_nearest] = [solve_cubic]), hypotheses discharged by C15 and C17.
+    _partial: positive accuracy, and no quadratic piece may be degree-degenerate (which excludes the
+    straight cubic with controls at the thirds): on such a piece the real run of [solve_cubic] does
+    not take the delegation the compiled code takes.  [C09_cubic_nearest_within_accuracy] over
+    [solve_cubic_ext] has no such exclusion. *)
+Theorem C09_cubic_nearest_solve_cubic_partial : forall (c : CubicBez R) (p : Point R) (a : R),
+  0 < a ->
+  (forall i : nat, (i < Z.to_nat (nr_quads_count c a))%nat ->
+     quad_d1 (snd (nr_quads_piece c (nr_quads_count c a) (Z.of_nat i))) <> mkVec2 0 0) ->
+  exists t d, cubic_nearest c p a = Some (t, d) /\ 0 <= t <= 1 /\
+    forall tm dmin : R,
+      (0 <= tm <= 1 /\ pt_distance (cubic_eval c tm) p = dmin /\
+       forall u, 0 <= u <= 1 -> dmin <= pt_distance (cubic_eval c u) p) ->
+      Rabs (R_sqrt.sqrt d - dmin) <= a /\ pt_distance (cubic_eval c t) p <= dmin + 2 * a.
+Proof. exact cubic_nearest_closed. Qed.
+
+(** * The repair proposed for the recorded defects (proposed_fixes/C09-nearest-degenerate-quad.diff)
+
+    [quad_nearest_repaired_with]: below the rounding error of d0 = p1 - p0 the roots come from the
+    quadratic solver, and every root is polished by Newton steps that only ever decrease the residual.
+    Over the reals the polish leaves exact roots in place, so the theorems carry over.
+    _partial: in the band 0 < |p0-2p1+p2|^2 <= 2^-104 |p1-p0|^2 the repaired code drops the cubic
+    term on purpose (it is below binary64 rounding); the exact-arithmetic statement excludes it. *)
+Theorem C09_quad_nearest_repaired_min_partial :
+  forall (scubic : R -> R -> R -> R -> list R) (squad : R -> R -> R -> list R),
+  (forall k0 k1 k2 k3 x : R, (k0, k1, k2, k3) <> (0, 0, 0, 0) ->
+     k0 + k1 * x + k2 * (x * x) + k3 * (x * x * x) = 0 -> In x (scubic k0 k1 k2 k3)) ->
+  (forall k0 k1 k2 x : R, (k0, k1, k2) <> (0, 0, 0) ->
+     k0 + k1 * x + k2 * (x * x) = 0 -> In x (squad k0 k1 k2)) ->
+  forall (q : QuadBez R) (p : Point R),
+  quad_d1 q = mkVec2 0 0 \/
+    Q2R (1 # 2 ^ 104) * v_hypot2 (pt_sub (q1 q) (q0 q)) < v_hypot2 (quad_d1 q) ->
+  exists t d, quad_nearest_repaired_with scubic squad q p = Some (t, d) /\
+    0 <= t <= 1 /\ pt_distance_squared (quad_eval q t) p = d /\
+    forall u, 0 <= u <= 1 -> d <= pt_distance_squared (quad_eval q u) p.
+Proof. exact quad_nearest_repaired_min. Qed.
+
+Theorem C09_polish_keeps_exact_roots : forall k0 k1 k2 k3 t : R,
+  k0 + k1 * t + k2 * (t * t) + k3 * (t * t * t) = 0 -> nr_polish_root k0 k1 k2 k3 t = t.
+Proof. exact polish_root_fixed. Qed.
+
+Theorem C09_solve_quadratic_ext_complete : forall k0 k1 k2 x : R, (k0, k1, k2) <> (0, 0, 0) ->
+  k0 + k1 * x + k2 * (x * x) = 0 -> In x (solve_quadratic_ext k0 k1 k2).
+Proof. exact solve_quadratic_ext_complete. Qed.
+
+Theorem C09_cubic_nearest_repaired_partial :
+  forall (scubic : R -> R -> R -> R -> list R) (squad : R -> R -> R -> list R),
+  (forall k0 k1 k2 k3 x : R, (k0, k1, k2, k3) <> (0, 0, 0, 0) ->
+     k0 + k1 * x + k2 * (x * x) + k3 * (x * x * x) = 0 -> In x (scubic k0 k1 k2 k3)) ->
+  (forall k0 k1 k2 x : R, (k0, k1, k2) <> (0, 0, 0) ->
+     k0 + k1 * x + k2 * (x * x) = 0 -> In x (squad k0 k1 k2)) ->
+  forall (c : CubicBez R) (p : Point R) (n : nat) (a : R),
+  (1 <= n)%nat ->
+  (forall (i : nat) (u : R), (i < n)%nat -> 0 <= u <= 1 ->
+     let '(t0, t1, q) := nr_quads_piece c (Z.of_nat n) (Z.of_nat i) in
+     pt_distance (cubic_eval c (t0 + u * (t1 - t0))) (quad_eval q u) <= a) ->
+  (forall i : nat, (i < n)%nat ->
+     let q := snd (nr_quads_piece c (Z.of_nat n) (Z.of_nat i)) in
+     quad_d1 q = mkVec2 0 0 \/ Q2R (1 # 2 ^ 104) * v_hypot2 (pt_sub (q1 q) (q0 q)) < v_hypot2 (quad_d1 q)) ->
+  exists t d, cubic_nearest_n_with (quad_nearest_repaired_with scubic squad) c p n = Some (t, d) /\ 0 <= t <= 1 /\
+    forall tm dmin : R,
+      (0 <= tm <= 1 /\ pt_distance (cubic_eval c tm) p = dmin /\
+       forall u, 0 <= u <= 1 -> dmin <= pt_distance (cubic_eval c u) p) ->
+      Rabs (R_sqrt.sqrt d - dmin) <= a /\ pt_distance (cubic_eval c t) p <= dmin + 2 * a.
+Proof. exact cubic_nearest_repaired_min. Qed.
+
+(** * PathSeg: plain dispatch *)
+Theorem C09_seg_nearest_dispatch : forall (T : Type) (S : Scalar T) (p : Point T) (a : T),
+  (forall l, seg_nearest (SegLine l) p a = Some (line_nearest l p)) /\
+  (forall q, seg_nearest (SegQuad q) p a = quad_nearest q p) /\
+  (forall c, seg_nearest (SegCubic c) p a = cubic_nearest c p a).
+Proof. intros; repeat split; reflexivity. Qed.
+
+(** * Non-vacuity and concrete instances *)
+
+Example C09_ex_line_interior :
+  line_nearest (mkLine (mkPoint 0 0) (mkPoint 4 0)) (mkPoint 1 3) = (/ 4, 9).
+Proof. exact ex_line_interior. Qed.
+Example C09_ex_line_zero_length :
+  line_nearest (mkLine (mkPoint 1 1) (mkPoint 1 1)) (mkPoint 4 5) = (0, 25).
+Proof. exact ex_line_zero_length. Qed.
+
+(** a quadratic meeting the guard of the _partial theorems, and one that is degree-degenerate *)
+Example C09_ex_quad_nondegenerate :
+  quad_d1 (mkQuad (mkPoint 0 0) (mkPoint 1 1) (mkPoint 2 0)) <> mkVec2 0 0.
+Proof. exact ex_quad_nondegenerate. Qed.
+Example C09_ex_quad_degenerate :
+  quad_d1 (mkQuad (mkPoint 0 0) (mkPoint 1 0) (mkPoint 2 0)) = mkVec2 0 0 /\
+  quad_nearest_from_roots (mkQuad (mkPoint 0 0) (mkPoint 1 0) (mkPoint 2 0)) (mkPoint (/ 2) 1)
+    (quad_linear (- (/ 2)) 2) = Some (/ 4, 1).
+Proof. exact ex_quad_degenerate. Qed.
+
+(** the hypothesis of [C09_quad_nearest_min_solve_cubic_partial] holds for Solvers.v (C15) *)
+Example C09_ex_solver_hypothesis : forall c0 c1 c2 c3 x : R, c3 <> 0 ->
+  c0 + c1 * x + c2 * (x * x) + c3 * (x * x * x) = 0 -> In x (solve_cubic c0 c1 c2 c3).
+Proof. exact cubic_solver_complete_holds. Qed.
+
+(** binary64 run of the model on the same degenerate quadratic: both non-finiteness tests fire
+    (the hypotheses of [C09_solve_cubic_delegates_linear]) and the answer is exact *)
+Example C09_ex_float_degenerate_path :
+  (let q : QuadBez float := mkQuad (mkPoint 0 0) (mkPoint 1 0) (mkPoint 2 0) in
+  let p : Point float := mkPoint 0.5 1 in
+  let '(k0, k1, k2, k3) := quad_nearest_coeffs q p in
+  ((fis_finite (k0 * (f1 / k3)) && fis_finite (k1 * (sv_third * (f1 / k3)))
+     && fis_finite (k2 * (sv_third * (f1 / k3))))%S = false /\
+   (negb (fis_finite (k0 * (f1 / k2))) || negb (fis_finite (k1 * (f1 / k2))))%S = true /\
+   quad_nearest q p = Some (0.25, 1)))%float.
+Proof. exact ex_float_degenerate_path. Qed.
+
+(** the recorded defect, on the binary64 run of the model (no theorem above speaks about it):
+    a straight cubic with its controls at the thirds; [nearest] answers t = 0 with squared
+    distance 76.27..., the curve point at t = 0.1448... is at squared distance 68.49... *)
+Example C09_straight_cubic_float_witness :
+  (let c : CubicBez float := mkCubic (mkPoint (-0x1.f3bd484ac151cp+2) (-0x1.2c4e8bd5f85cfp+2))
+                   (mkPoint (-0x1.5140dcfd75c1ep+1) (-0x1.c7a716924319p-1))
+                   (mkPoint 0x1.44f8d69a971fcp+1 0x1.74c98c62cf2d6p+1)
+                   (mkPoint 0x1.ed9945195200cp+2 0x1.adbe6f3517908p+2) in
+  let p : Point float := mkPoint (-0x1.4ec9d20f2b6d6p+3) 0x1.d06d3e399529p+1 in
+  exists t d, cubic_nearest c p 0x1.0624dd2f1a9fcp-10 = Some (t, d) /\
+     PrimFloat.ltb (pt_distance_squared (cubic_eval c 0x1.289006a786ae3p-3) p + 7) d = true)%float.
+Proof. exact straight_cubic_float_witness. Qed.
+
+(** ... and the binary64 run of the repaired model on the same input: t = 0.14480596233368145
+    (the clamped projection on the line gives the same to 1e-15), squared distance 68.4952... *)
+Example C09_straight_cubic_float_repaired :
+  (let c : CubicBez float := mkCubic (mkPoint (-0x1.f3bd484ac151cp+2) (-0x1.2c4e8bd5f85cfp+2))
+                   (mkPoint (-0x1.5140dcfd75c1ep+1) (-0x1.c7a716924319p-1))
+                   (mkPoint 0x1.44f8d69a971fcp+1 0x1.74c98c62cf2d6p+1)
+                   (mkPoint 0x1.ed9945195200cp+2 0x1.adbe6f3517908p+2) in
+  let p : Point float := mkPoint (-0x1.4ec9d20f2b6d6p+3) 0x1.d06d3e399529p+1 in
+  exists t d, cubic_nearest_repaired c p 0x1.0624dd2f1a9fcp-10 = Some (t, d) /\
+     PrimFloat.ltb (abs (t - 0x1.289006a786ae3p-3)) 0x1p-20 = true /\
+     PrimFloat.ltb d (pt_distance_squared (cubic_eval c 0x1.289006a786ae3p-3) p + 0x1p-20) = true)%float.
+Proof. exact straight_cubic_float_repaired. Qed.
